@@ -15,7 +15,7 @@ import random
 
 from .. import core
 
-SPELL = {"U": ["A", "É", "K"], "L": ["b", "é", "x"], "Z": ["1", ".", "-", "'"], "W": [" ", "\t", "\n"], "T": ["~"], "C": [","],
+SPELL = {"U": ["A", "É", "K"], "L": ["b", "é", "x"], "Z": ["1", ".", "-", "'", "\u00a0", "\x0c", "\u2003"], "W": [" ", "\t", "\n"], "T": ["~"], "C": [","],
          "{": ["{"], "}": ["}"], "EU": ["\\O", "\\A"], "EL": ["\\o", "\\i"], "EA": ["\\'", "\\`", "\\^"]}
 ACCENTS = set("'`^\"=.")   # not '~': BibTeX and the code read a tie after a backslash as a word separator
 
@@ -153,7 +153,7 @@ def report(chk, clause, text, got, want):
 def random_name(rnd):
     up = ["Knuth", "Donald", "E.", "Jean", "{Foo Bar}", "{\\'E}douard", "\\'Etienne", "Å", "III", "AA", "{\\OE}uvre", "O'Neil", "X-Y"]
     lo = ["de", "la", "van", "der", "von", "{\\'e}s", "\\'e", "d'", "bb", "dd"]
-    zz = ["{von}", "12", "{AA}", "{}", "-", "{\\relax}", "..."]
+    zz = ["{von}", "12", "{AA}", "{}", "-", "{\\relax}", "...", "\u00a0x", "x\u00a0", "\x0cJean\u2003", "\x0b"]
     n = rnd.randint(1, 12)
     ws = [rnd.choice(up * 3 + lo * 2 + zz) for _ in range(n)]
     seps = [rnd.choice([" ", " ", " ", "~", "  ", "\t"]) for _ in range(n - 1)]
